@@ -128,3 +128,14 @@ def node_of_expr(g, expr):
             return ns[0]
         n = getattr(n, '_parent', None)
     return None
+
+
+def resolve(rd, node, expr, hops=4):
+    """Follow plain local copies: a Name with exactly one reaching definition whose value is an expression stands for that expression
+    (evaluated at the defining node).  Returns (expr, node)."""
+    while isinstance(expr, ast.Name) and hops > 0 and node is not None:
+        ds = rd.reaching(node, expr.id)
+        if len(ds) != 1 or not isinstance(ds[0][1], ast.AST) or ds[0][2] is None:
+            break
+        expr, node, hops = ds[0][1], ds[0][2], hops - 1
+    return expr, node
